@@ -781,6 +781,19 @@ def opt_elim(n):
         if fcl.get("k") == "closure" and len(fcl["params"]) == 1:
             b = pat_bindings(fcl["params"][0])
             return {"scrut": n["recv"], "bind": b[0][1] if len(b) == 1 else None, "some": fcl["body"], "none": d}
+    if k == "if" and "else" in n and peel(n["cond"]).get("k") == "binary" and peel(n["cond"])["op"] in ("<", ">", "<=", ">="):
+        # the bounds-checked read `if i < xs.len() { &xs[i] } else { d }` is `xs.get(i).unwrap_or(d)`
+        c = peel(n["cond"])
+        l, r, op = peel(c["l"]), peel(c["r"]), c["op"]
+        if op in (">", "<="):
+            l, r, op = r, l, {">": "<", "<=": ">="}[op]
+        # now `l < r` (hit in then) or `l >= r` (miss in then)
+        hit, miss = (n["then"], n["else"]) if op == "<" else (n["else"], n["then"])
+        h = tail_value(hit)
+        if r.get("k") == "mcall" and r["name"] == "len" and not r["args"] and h.get("k") == "index" \
+                and show(peel(h["e"])) == show(peel(r["recv"])) and show(peel(h["i"] if "i" in h else h.get("idx", {}))) == show(l):
+            return {"scrut": {"k": "mcall", "name": "get", "recv": r["recv"], "args": [l], "path": "core::option::Option::get", "sp": n.get("sp"), "ty": "Option"},
+                    "bind": None, "some": None, "none": miss}
     arms = None
     if k == "match":
         arms = [(a["pat"], a["body"]) for a in n["arms"] if "guard" not in a]
@@ -932,7 +945,7 @@ def _diverges(b):
                 t = t["e"]
         else:
             return False
-    return t.get("k") in ("return", "continue", "break") or t.get("ty") == "!"
+    return t.get("k") in ("return", "ireturn", "continue", "break") or t.get("ty") == "!"
 
 
 def may_reach_after(ix, start, target):
@@ -1344,7 +1357,8 @@ def result_table(ix, e, depth=0, unwrap=("Option::Some", "Result::Ok")):
             while t is not None and t.get("k") == "blockexpr" and "tail" in t["b"]:
                 t = t["b"]["tail"]
             if t is not None and not _diverges(t) and not (t.get("k") == "loop" and not any(y.get("k") == "break" for y in walk(t))):
-                out += result_table(ix, e0["b"]["tail"], depth + 1, unwrap)
+                pre = path_conditions(ix, e0["b"]["tail"], upto=e0)      # the early exits before the tail were not taken
+                out += [(pre + cs, leaf) for cs, leaf in result_table(ix, e0["b"]["tail"], depth + 1, unwrap)]
             return out
     e = tail_value(e)
     if depth > 8:
@@ -1391,10 +1405,12 @@ def result_table(ix, e, depth=0, unwrap=("Option::Some", "Result::Ok")):
                     pre = path_conditions(ix, x, upto=e)
                     out += [(pre + cs, leaf) for cs, leaf in result_table(ix, x["e"], depth + 1, unwrap)]
                 if "tail" in b and not _diverges(b["tail"]) and not (peel(b["tail"]).get("k") == "loop" and not any(y.get("k") == "break" for y in walk(b["tail"]))):
-                    out += result_table(ix, b["tail"], depth + 1, unwrap)
+                    pre = path_conditions(ix, b["tail"], upto=e)
+                    out += [(pre + cs, leaf) for cs, leaf in result_table(ix, b["tail"], depth + 1, unwrap)]
                 return out
         if "tail" in b:
-            return result_table(ix, b["tail"], depth + 1, unwrap)
+            pre = path_conditions(ix, b["tail"], upto=e) if id(b["tail"]) in ix.parent else []     # early exits before the tail were not taken
+            return [(pre + cs, leaf) for cs, leaf in result_table(ix, b["tail"], depth + 1, unwrap)]
     if k in ("return", "ireturn") and "e" in e:
         return result_table(ix, e["e"], depth + 1, unwrap)
     if k == "try" and unwrap and peel(e["e"]).get("k") in ("blockexpr", "match", "if"):
